@@ -122,10 +122,10 @@ def cli_case(ctx, rng, k):
         cf, cb = rng.choice([0, 5, 10, 20]), rng.choice([0, 5, 10, 20]); argv += ["-q", f"{cf},{cb}"]
     elif mode == "both":
         # NextSeq trimming runs first, ordinary quality trimming then sees its result; the report must add both up
-        nc = rng.choice([5, 10, 20]); argv += ["--nextseq-trim", str(nc)]
+        nc = rng.choice([0, 1, 5, 10, 20]); argv += ["--nextseq-trim", str(nc)]
         cf, cb = rng.choice([0, 10, 20]), rng.choice([5, 10, 20]); argv += ["-q", f"{cf},{cb}"]
     else:
-        nc = rng.choice([5, 10, 20]); argv += ["--nextseq-trim", str(nc)]
+        nc = rng.choice([0, 1, 5, 10, 20]); argv += ["--nextseq-trim", str(nc)]
     cf2, cb2 = cf, cb
     if mode == "paired":
         if rng.random() < 0.7:
@@ -195,7 +195,7 @@ def run_shard(ctx):
         if rng.random() < 0.93:
             q = [max(0, x) for x in q]   # mostly non-negative; 7% keep characters below the base
         seq = "".join(rng.choice("ACGTGGGNg" if rng.random() < 0.7 else "ACGT") for _ in range(L))
-        nc = rng.choice([5, 10, 20])
+        nc = rng.choice([0, 1, 5, 10, 20])
         check_direct(ctx, q, cf, cb, base, seq, nc)
         if asan and i % 50 == 0:
             ctx.san_check(lambda: dict(q=q, cf=cf, cb=cb, base=base, seq=seq, nc=nc))
